@@ -45,7 +45,134 @@ COLLECTION_OPS = ("push", "insert", "extend", "retain", "sort", "sort_by", "sort
                   "dedup", "reverse", "pop", "drain", "append", "swap_remove", "sort_unstable_by_key")
 
 
+_PLACE = r"((?:self|p\d+)(?:\.[A-Za-z_]\w*)+|p\d+)"
+_VAL_PLACE = re.compile(r"\bval\(" + _PLACE + r"\)")
+_SOME_PLACE = re.compile(r"\bSOME\(" + _PLACE + r"\)")
+
+
+def norm_text(t):
+    """one spelling for reading through an Option component: `val(self.x)` is `self.x`, `SOME(self.x)` is `P(self.x)`
+    (if-let, as_ref().map(), is_some_and() and ? all read the same component)"""
+    prev = None
+    while prev != t:
+        prev = t
+        t = _VAL_PLACE.sub(r"\1", t)
+        t = _strip_wrapped(t, "val(", "")
+    t = _SOME_PLACE.sub(r"P(\1)", t)
+    return _strip_wrapped(t, "SOME(", "P(")
+
+
+_FIELD_END = re.compile(r"^(?:self|p\d+|val\().*\.[A-Za-z_]\w*$", re.S)
+
+
+def _strip_wrapped(t, head, repl_head):
+    """head(<component read: ... .field>) -> <...> (val) / P(<...>) (SOME)"""
+    i = 0
+    out = t
+    while True:
+        j = out.find(head, i)
+        if j < 0:
+            return out
+        if j > 0 and (out[j - 1].isalnum() or out[j - 1] == "_"):
+            i = j + 1
+            continue
+        depth, k = 0, j + len(head) - 1
+        end = None
+        q = None
+        while k < len(out):
+            ch = out[k]
+            if q:
+                if ch == q:
+                    q = None
+            elif ch in "'":
+                q = ch
+            elif ch == "(":
+                depth += 1
+            elif ch == ")":
+                depth -= 1
+                if depth == 0:
+                    end = k
+                    break
+            k += 1
+        if end is None:
+            return out
+        inner = out[j + len(head):end]
+        if _FIELD_END.match(inner) and inner.count("(") == inner.count(")"):
+            if repl_head:
+                out = out[:j] + repl_head + inner + ")" + out[end + 1:]
+                i = j + len(repl_head)
+            else:
+                out = out[:j] + inner + out[end + 1:]
+                i = j
+        else:
+            i = j + len(head)
+
+
+def cat_text(parts):
+    """canonical text of a concatenation: adjacent literals merged; a single value part is that value"""
+    merged = []
+    for kind, v in parts:
+        if kind == "lit":
+            if v == "":
+                continue
+            if merged and merged[-1][0] == "lit":
+                merged[-1] = ("lit", merged[-1][1] + v)
+            else:
+                merged.append(("lit", v))
+        else:
+            m_ = re.match(r"^cat\((.*)\)$", v, re.S)
+            if m_ and _balanced(m_.group(1)):
+                for p in _cat_parts(v):
+                    if p[0] == "lit" and merged and merged[-1][0] == "lit":
+                        merged[-1] = ("lit", merged[-1][1] + p[1])
+                    else:
+                        merged.append(p)
+            else:
+                merged.append(("val", v))
+    if len(merged) == 1 and merged[0][0] == "val":
+        return merged[0][1]
+    return "cat(%s)" % ",".join(("'%s'" % v.replace("'", "\\'")) if k_ == "lit" else v for k_, v in merged)
+
+
+def _balanced(t):
+    d = 0
+    for ch in t:
+        if ch == "(":
+            d += 1
+        elif ch == ")":
+            d -= 1
+            if d < 0:
+                return False
+    return d == 0
+
+
+def _cat_parts(t):
+    m_ = re.match(r"^cat\((.*)\)$", t, re.S)
+    if not m_:
+        return [("val", t)]
+    out = []
+    for p in _split_top(m_.group(1)):
+        if len(p) >= 2 and p[0] == "'" and p[-1] == "'":
+            out.append(("lit", p[1:-1].replace("\\'", "'")))
+        elif p:
+            out.append(("val", p))
+    return out
+
+
+def cat_append(old_t, part):
+    return cat_text(_cat_parts(old_t) + [part])
+
+
+class _Stores(list):
+    def append(self, item):
+        pc, rep_ = item
+        super().append((pc, norm_text(rep_) if isinstance(rep_, str) else rep_))
+
+
 class AcceptExtract(guards.Extract):
+    def atom(self, s):
+        return ("atom", norm_text(s))
+
     def __init__(self, F, body):
         self.F = F
         self.tm = None
@@ -57,7 +184,7 @@ class AcceptExtract(guards.Extract):
         self.visiting = set()
         self.body = body
         self.accept = []
-        self.stores = []     # (path condition, what the Ok value is built from)
+        self.stores = _Stores()     # (path condition, what the Ok value is built from)
         self.unknown = 0
         self.ctx = TRUE      # condition of the enclosing statements (kept out of the local pc to avoid blow-up)
         out = body.get("output") or ""
@@ -156,6 +283,12 @@ class AcceptExtract(guards.Extract):
             gtxt = "::<%s>" % ",".join(g.rsplit("::", 1)[-1] for g in ga) if ga and x["m"] in ("downcast_ref", "parse", "collect", "downcast") else ""
             return "%s.%s%s(%s)" % (self.value_text(x["recv"], env), x["m"], gtxt, args)
         if k == "call":
+            f_ = x.get("inst") or x.get("f") or ""
+            if (x.get("t") or "").endswith("string::String") and len(x.get("args") or []) == 1 and \
+                    f_.rsplit("::", 1)[-1] == "from":
+                return self.value_text(x["args"][0], env)
+            if f_.endswith(("String::new", "String::with_capacity")):
+                return "cat()"
             return "%s(%s)" % (self.call_name(x), ",".join(self.value_text(a, env) for a in x.get("args") or []))
         if k == "bin":
             return "(%s%s%s)" % (self.value_text(x["l"], env), x["op"], self.value_text(x["r"], env))
@@ -189,9 +322,24 @@ class AcceptExtract(guards.Extract):
         if k == "def":
             return (x.get("def") or "?").rsplit("::", 1)[-1]
         if k == "fmt":
+            pcs = x.get("pieces") or []
+            if all(isinstance(q, str) or (q.get("prec") is None and q.get("width") is None and
+                                          (q.get("trait") or "new_display") == "new_display" and
+                                          isinstance(q.get("arg"), int)) for q in pcs):
+                # plain concatenation: the same text whether written with format!, push_str or +
+                parts = []
+                args = x.get("args") or []
+                for q in pcs:
+                    if isinstance(q, str):
+                        parts.append(("lit", q))
+                    elif q["arg"] < len(args):
+                        parts.append(("val", self.value_text(args[q["arg"]], env)))
+                    else:
+                        parts.append(("val", "?"))
+                return cat_text(parts)
             ps = "".join(q if isinstance(q, str) else "{%s%s}" % (":." + str(q["prec"]) if q.get("prec") is not None else "",
                                                                ("w" + str(q["width"])) if q.get("width") is not None else "")
-                         for q in x.get("pieces") or [])
+                         for q in pcs)
             return "fmt(%s;%s)" % (ps, ",".join(self.value_text(a, env) for a in x.get("args") or []))
         if k == "closure":
             return "|..|"
@@ -543,6 +691,19 @@ class AcceptExtract(guards.Extract):
             return pc
         if k == "block":
             return self.branch(s, pc, env)
+        xs = s
+        while isinstance(xs, dict) and xs.get("k") in ("semi", "stmt"):
+            xs = xs.get("e") or xs.get("expr")
+        if isinstance(xs, dict) and xs.get("k") == "mcall" and xs.get("m") in ("push_str", "push") and \
+                re.match(r"^&(mut )?(std::string::)?String$", (xs.get("rt") or "").strip()):
+            rv = peel(xs.get("recv"))
+            if isinstance(rv, dict) and rv.get("k") == "local" and xs.get("args"):
+                old_t = env.get(rv["id"], ("text", rv.get("name")))[1]
+                a0 = xs["args"][0]
+                lv = lit_val(peel(a0))
+                part = ("lit", lv) if isinstance(lv, str) else ("val", self.value_text(a0, env))
+                env[rv["id"]] = ("text", cat_append(old_t, part))
+                return f_and(pc, self.try_atoms(s, env))
         # a collection under construction is extended / pruned: part of what the function delivers
         x0 = s
         while isinstance(x0, dict) and x0.get("k") in ("semi", "stmt"):
